@@ -199,9 +199,12 @@ def norm(c, t, memo=None):
             for key, (arg, var) in list(c.recips.items()):
                 if isinstance(key, tuple) and key[0] == 'sqrt' and \
                         var.get_id() == k:
-                    na = norm(c, arg, memo)
-                    if not na.eq(z3.simplify(arg)):
-                        r = symx.qt(symx.sqrt(Q(na)))
+                    # canonical representative per (sum-of-monomials
+                    # normal form of the) argument: sqrt is a function
+                    na = z3.simplify(norm(c, arg, memo), som=True)
+                    canon = c.__dict__.setdefault('_sqrt_canon', {})
+                    c.keep.append(na)
+                    r = canon.setdefault(na.get_id(), t)
                     break
     elif t.decl().kind() == z3.Z3_OP_UNINTERPRETED and t.num_args() == 1:
         name = t.decl().name()
@@ -836,6 +839,7 @@ def case_layered(case):
     def run():
         c.side, c.side_notes, c.recips, c.recip_den = [], [], {}, {}
         c._feas = None
+        c.__dict__['_sqrt_canon'] = {}
         bip = Bipole(c)
         empymod.bipole = bip
         X = build_layered(E, c, bip, method, mapping, aniso, mask)
